@@ -137,6 +137,10 @@ func (c *Ctx) global(g *ssa.Global) Value {
 	if p, ok := c.globals[g]; ok {
 		return p
 	}
+	if g.Pkg != nil && !isModule(g.Pkg) && !(g.Pkg.Pkg.Path() == "os" && g.Name() == "Args") {
+		// initialisers of packages outside the module are not run, so their variables have no meaningful value
+		c.Unsupported("package variable %s.%s of a package outside the module", g.Pkg.Pkg.Path(), g.Name())
+	}
 	p := new(Value)
 	elem := g.Type().(*types.Pointer).Elem()
 	*p = zero(elem)
@@ -223,6 +227,11 @@ func interpretable(fn *ssa.Function) bool {
 	switch p.Pkg.Path() {
 	case "slices", "maps", "errors", "cmp", "iter":
 		return true
+	case "strings", "unicode", "unicode/utf8", "sort", "bytes", "path", "strconv":
+		// pure Go library code without a model (for instance introduced by a refactoring of the code under check) is
+		// interpreted from its SSA form like the repository's own code; what it needs beyond the executor's reach
+		// (assembly, unsafe) ends the path as unsupported as before
+		return fn.Blocks != nil
 	}
 	return false
 }
@@ -541,7 +550,29 @@ func (it *iter) next(c *Ctx) Value {
 	}
 	g, ok := it.s.Go()
 	if !ok {
-		c.Unsupported("range over symbolic string")
+		// symbolic bytes: one rune per byte under the assumption that they are ASCII (as for []rune conversions)
+		units := it.s.Units()
+		if it.pos >= len(units) {
+			return Tuple{false, int64(0), int64(0)}
+		}
+		u := units[it.pos]
+		idx := it.pos
+		switch {
+		case u.D != nil:
+			c.Unsupported("range over a string with decimal atoms")
+		case u.B != nil:
+			if !asciiOnly(u.B) {
+				c.Assume(c.B.Cmp(sym.OpULt, u.B, c.B.BV(0x80, 8)))
+			}
+			it.pos++
+			return Tuple{true, int64(idx), c.B.ZExt(u.B, 32)}
+		default:
+			if u.S[0] >= 0x80 {
+				c.Unsupported("range over a mixed symbolic/non-ASCII string")
+			}
+			it.pos++
+			return Tuple{true, int64(idx), int64(u.S[0])}
+		}
 	}
 	if it.pos >= len(g) {
 		return Tuple{false, int64(0), int64(0)}
